@@ -56,9 +56,11 @@ EXTENDS Num, Sequences, FiniteSets, TLC, SequencesExt, FiniteSetsExt, Folds
 CONSTANTS
   PREC,        \* LegacyDec unit
   IDORD,       \* epoch identifiers of interest in store (byte) order
-  DEVIATIONS   \* named variants of AllocateTokensToStakers the model can follow instead of the current tree:
+  DEVIATIONS   \* named OLD behaviours of AllocateTokensToStakers the model can follow instead of the current tree
+               \* (kept so that the guards can show that the invariants detect them):
                \*   "L11": (defect, fixed in 311e836) adds the WHOLE staker share to the community pool
-               \*   "ACC": (fix proposal for lead L27) one entry per staker, powers of repeated entries accumulated
+               \*   "L27": (defect, fixed in 9ad8de4) one list entry and one payment per (AVS, asset, staker), the power
+               \*          map overwritten by the last entry while the total sums every entry
 
 Put(f, k, v) == [x \in DOMAIN f \cup {k} |-> IF x = k THEN v ELSE f[x]]
 Get(f, k)    == IF k \in DOMAIN f THEN f[k] ELSE N0
@@ -78,9 +80,11 @@ One == PREC       \* LegacyOneDec
 (***************************************************************************)
 
 \* AllocateTokensToStakers(operator o, rewardToAllStakers R).
-\*   entries  = globalStakerAddressList (a staker appears once per (avs, asset) list it is in)
-\*   pmap[s]  = stakersPowerMap: the LAST power written for s
+\*   ents     = one (staker, power) per (avs, asset, staker of that list) the code visits
 \*   total    = curTotalStakersPowers: the sum over ALL entries
+\*   current tree (9ad8de4): globalStakerAddressList holds every staker ONCE (first occurrence),
+\*              stakersPowerMap[s] = SUM of the powers of its entries, one payment per staker
+\*   "L27" (before): the list holds every entry, pmap[s] = the LAST power written for s
 \* The loop runs in descending power order (sort.Slice); the result does not depend on the
 \* order because every entry adds to its own staker's reward.  DecCoins.Sub panics when the
 \* remainder goes negative.
@@ -94,7 +98,7 @@ ToStakersD(dv, st, e, o, R) ==
             rm == NSub(acc.rem, r)
         IN [srew |-> AddTo(acc.srew, en.s, r), rem |-> rm, panic |-> acc.panic \/ NIsNeg(rm)]
       zero == [srew |-> st.srew, rem |-> R, panic |-> FALSE]
-      \* variant "ACC": the list holds every staker once (first occurrence), its power is the SUM of its entries
+      \* current tree: the list holds every staker once (first occurrence), its power is the SUM of its entries
       firsts == SelectSeq([i \in DOMAIN ents |-> [i |-> i, s |-> ents[i].s]],
                           LAMBDA x : \A j \in 1..(x.i - 1) : ents[j].s # x.s)
       acc(s) == FoldLeft(LAMBDA a, en : IF en.s = s THEN NAdd(a, en.p) ELSE a, N0, ents)
@@ -104,8 +108,8 @@ ToStakersD(dv, st, e, o, R) ==
             rm == NSub(a.rem, r)
         IN [srew |-> AddTo(a.srew, x.s, r), rem |-> rm, panic |-> a.panic \/ NIsNeg(rm)]
       res  == IF ~NIsPos(total) THEN zero
-              ELSE IF "ACC" \in dv THEN FoldLeft(stepAcc, zero, firsts)
-              ELSE FoldLeft(step, zero, ents)
+              ELSE IF "L27" \in dv THEN FoldLeft(step, zero, ents)
+              ELSE FoldLeft(stepAcc, zero, firsts)
       \* code since 311e836: feePool.CommunityPool.Add(remaining...)
       \* before (lead L11):  feePool.CommunityPool.Add(rewardToAllStakers...)
       cpAdd == IF "L11" \in dv THEN R ELSE res.rem
